@@ -219,8 +219,96 @@ fn check(drv: &dyn Driver, c: &Case, with_interrupts: bool) -> Verdict {
         .evals(1 + raw.is_some() as u64))
 }
 
+// ---------------------------------------------------------------------------------------------
+// the generic (format-detecting) readers of noodles-util: detection looks at the leading bytes, so
+// it is the place where a short first read matters most
+
+#[derive(Clone, Debug, Serialize, Deserialize)]
+pub struct UtilAlnCase {
+    pub case: super::c20::AlnCase,
+    pub sel: u8,
+}
+
+#[derive(Clone, Debug, Serialize, Deserialize)]
+pub struct UtilVarCase {
+    pub case: super::c20::VarCase,
+    pub sel: u8,
+}
+
+fn check_util_aln(c: &UtilAlnCase) -> Verdict {
+    use super::c20;
+    use crate::r#gen::cram as gcram;
+    let (repo, files) = c20::aln_files(&c.case);
+    let mut fails = Fails::new();
+    let mut n = 0;
+    for (fmt, bytes) in &files {
+        let canon = |v: &[noodles_sam::alignment::RecordBuf]| -> Vec<gcram::Canon> { v.iter().map(gcram::canon_of_record).collect() };
+        let plain = c20::read_aln(bytes, &repo).map(|(_, r)| canon(&r)).map_err(|e| e.kind());
+        let adv = c20::read_aln_from(c20::short_reads(bytes, c.sel as u64), &repo).map(|(_, r)| canon(&r)).map_err(|e| e.kind());
+        n += 1;
+        if plain != adv {
+            let d = |x: &Result<Vec<gcram::Canon>, std::io::ErrorKind>| match x {
+                Ok(v) => format!("{} records", v.len()),
+                Err(k) => format!("Err({k:?})"),
+            };
+            fails.push(
+                format!("c12.differs:util-alignment:{}{}", fmt.name(), if c.case.empty { ":empty" } else { "" }),
+                format!("generic alignment reader on a {} stream ({} bytes): from a slice {}, delivered in short reads (script {}) {}", fmt.name(), bytes.len(), d(&plain), c.sel % 4, d(&adv)),
+            );
+        }
+    }
+    fails.finish(Pass::new(n > 0, key_of(c)).evals(n.max(1)).label_if(c.case.empty, "empty-file"))
+}
+
+fn check_util_var(c: &UtilVarCase) -> Verdict {
+    use super::c20;
+    use crate::r#gen::var as gvar;
+    let files = c20::var_files(&c.case);
+    let mut fails = Fails::new();
+    let mut n = 0;
+    for (fmt, bytes) in &files {
+        let models = |v: &[noodles_vcf::variant::RecordBuf]| -> Vec<gvar::VarRecord> { v.iter().map(gvar::VarRecord::from_record_buf).collect() };
+        let plain = c20::read_var(bytes).map(|(_, r)| models(&r)).map_err(|e| e.kind());
+        let adv = c20::read_var_from(c20::short_reads(bytes, c.sel as u64)).map(|(_, r)| models(&r)).map_err(|e| e.kind());
+        n += 1;
+        if plain != adv {
+            let d = |x: &Result<Vec<gvar::VarRecord>, std::io::ErrorKind>| match x {
+                Ok(v) => format!("{} records", v.len()),
+                Err(k) => format!("Err({k:?})"),
+            };
+            fails.push(
+                format!("c12.differs:util-variant:{}", fmt.name()),
+                format!("generic variant reader on a {} stream ({} bytes): from a slice {}, delivered in short reads (script {}) {}", fmt.name(), bytes.len(), d(&plain), c.sel % 4, d(&adv)),
+            );
+        }
+    }
+    fails.finish(Pass::new(n > 0, key_of(c)).evals(n.max(1)).label_if(c.case.header_only, "header-only"))
+}
+
 pub fn property() -> Property {
     let mut subs: Vec<Box<dyn DynSub>> = Vec::new();
+    subs.push(
+        sub(
+            "util-alignment",
+            "generic alignment reader (noodles-util, format and compression detected): streams of the generic writer for SAM, SAM.gz, BAM, CRAM read from a slice and delivered in short reads (first reads of 1–5 bytes); non-trivial = ≥1 stream written; distinct by hash of (document, script)",
+            |_tier| (super::c20::aln_case_strategy(), any::<u8>()).prop_map(|(case, sel)| UtilAlnCase { case, sel }).boxed(),
+            check_util_aln,
+            600,
+            12_000,
+        )
+        .boxed(),
+    );
+    subs.push(
+        sub(
+            "util-variant",
+            "generic variant reader: streams of the generic writer for VCF, VCF.gz, BCF read from a slice and delivered in short reads; non-trivial = ≥1 stream written; distinct by hash of (document, script)",
+            |tier| (super::c20::var_case_strategy(tier), any::<u8>()).prop_map(|(case, sel)| UtilVarCase { case, sel }).boxed(),
+            check_util_var,
+            1_000,
+            20_000,
+        )
+        .boxed(),
+    );
     for drv in drivers::all() {
         for with_interrupts in [false, true] {
             let name = if with_interrupts { format!("{}+intr", drv.name()) } else { drv.name().to_string() };
